@@ -38,6 +38,11 @@ def skip(p, **kw):
 
 
 def mk(id, leaves, skips=(), subs=(), utf8=True, tags=()):
+    for l in leaves:
+        for a in ([l] if isinstance(l, dict) else l):
+            assert a["kind"] != "skip", id
+    for s in skips:
+        assert s["kind"] == "skip", id
     return {
         "id": id,
         "utf8": utf8,
@@ -79,7 +84,7 @@ def shape_corpus():
     a(mk("la_mend", [rx("(?m:a$)"), tok("a\n"), rx("b")]))
     a(mk("la_wordb", [rx(r"[a-z]+(?-u:\b)"), rx("[a-z]+[0-9]+"), rx(" +")]))
     a(mk("la_wordb_mid", [rx(r"a(?-u:\b) b"), rx("a"), tok(" ")]))
-    a(mk("la_wordb_kw", [rx(r"if(?-u:\b)", prio=10), rx("[a-z]+"), skip(" ")]))
+    a(mk("la_wordb_kw", [rx(r"if(?-u:\b)", prio=10), rx("[a-z]+")], [skip(" ")]))
     a(mk("la_notb", [rx(r"a(?-u:\B)"), rx("ab+"), tok("a")]))
     a(mk("la_notb2", [rx(r"x(?-u:\B)y*"), tok("x")]))
     a(mk("la_end_alt", [rx("(a|ab)$"), rx("[ab]+c")]))
